@@ -18,15 +18,15 @@ EXTENDS HttpServer, Json, IOUtils
 Rec == ndJsonDeserialize(IOEnv.TRACE)
 
 VARIABLES l, S, hist, dead, lfd, kfd, nbad, nsteps,
-          rx,        \* C07 (relational): per client, every byte it received in this history (capped)
+          rx,        \* C07 (relational): per client, the state of a streaming reader of every byte it received
           supplied   \* C07 (relational): per client, the tags of its requests in the order the application answered them
 vars == <<l, S, hist, dead, lfd, kfd, nbad, nsteps, rx, supplied>>
-RxCap == 60000
 RxSame == UNCHANGED <<rx, supplied>>
+RxInit == [hdr |-> <<>>, need |-> 0, tagbuf |-> <<>>, tags |-> <<>>, bad |-> FALSE]
 
 Init == /\ l = 1 /\ S = InitState(<<0>>, FALSE) /\ hist = 0 /\ dead = TRUE
         /\ lfd = 0 /\ kfd = 0 /\ nbad = 0 /\ nsteps = 0
-        /\ rx = [c \in Clients |-> <<>>] /\ supplied = [c \in Clients |-> <<>>]
+        /\ rx = [c \in Clients |-> RxInit] /\ supplied = [c \in Clients |-> <<>>]
 
 Ev(e) == l <= Len(Rec) /\ Rec[l].e = e /\ l' = l + 1
 
@@ -57,10 +57,11 @@ Common == /\ nsteps' = nsteps + 1 /\ UNCHANGED <<hist, lfd, kfd>>
 -----------------------------------------------------------------------------
 TReset == /\ Ev("reset")
           /\ Assert(Rec[l].maxconn = MaxConn /\ Rec[l].buf = BUF, "trace recorded with other constants")
-          /\ S' = InitState(Rec[l].limit, Rec[l].kill)
+          \* prekill: the eventfd was signalled before add_kill_switch registered it -- the signal counts
+          /\ S' = [InitState(Rec[l].limit, Rec[l].kill) EXCEPT !.killed = ("prekill" \in DOMAIN Rec[l] /\ Rec[l].prekill)]
           /\ hist' = Rec[l].hist /\ dead' = FALSE /\ lfd' = Rec[l].lfd /\ kfd' = Rec[l].kfd
           /\ nsteps' = 0 /\ UNCHANGED nbad
-          /\ rx' = [c \in Clients |-> <<>>] /\ supplied' = [c \in Clients |-> <<>>]
+          /\ rx' = [c \in Clients |-> RxInit] /\ supplied' = [c \in Clients |-> <<>>]
 
 (***************************************************************************)
 (* C07 judged on the implementation's own logs, independently of the model *)
@@ -69,28 +70,46 @@ TReset == /\ Ev("reset")
 (* application supplied the answers for that client.  Application responses *)
 (* are recognised by their body "/c<client>/<n>" followed by '.' padding.   *)
 (***************************************************************************)
-RECURSIVE ReadAllFrom(_, _, _)
-ReadAllFrom(s, i, acc) ==
-    IF i > Len(s) THEN [ok |-> TRUE, rs |-> acc]
-    ELSE LET r == ReadOne(s, i) IN
-         IF ~r.ok THEN [ok |-> (Len(s) - i < 400000), rs |-> acc]       \* an incomplete tail is not an error
-         ELSE ReadAllFrom(s, r.next, Append(acc, r))
+\* Streaming reader of what one client receives (constant-size state, so responses of any size are
+\* judged): hdr = bytes of the head not yet complete, need = body bytes still to come, tagbuf = the first
+\* bytes of the current body, tags = tags of the complete application responses so far, bad = some byte
+\* received does not belong to a well-formed response.
 TagOf(body) == LET dots == {i \in 1..Len(body) : body[i] = 46}
                IN IF dots = {} THEN body ELSE Slice(body, 1, MinOf(dots) - 1)
 IsAppBody(b) == Len(b) >= 4 /\ b[1] = 47 /\ b[2] = 99              \* "/c"
+HttpPrefix == <<72, 84, 84, 80, 47, 49, 46>>                          \* "HTTP/1."
+PrefixCompat(h) == \A i \in 1..Min2(Len(h), 7) : h[i] = HttpPrefix[i]
+EndOfHead(h) == LET m == Min2(Len(h), 4096)
+                    S4 == {i \in 1..(m - 3) : h[i] = CR /\ h[i + 1] = LF /\ h[i + 2] = CR /\ h[i + 3] = LF}
+                IN IF S4 = {} THEN 0 ELSE MinOf(S4)
+RxFinish(st) == [st EXCEPT !.tagbuf = <<>>, !.tags = IF IsAppBody(st.tagbuf) THEN Append(@, TagOf(st.tagbuf)) ELSE @]
+RECURSIVE RxFeed(_, _)
+RxFeed(st, b) ==
+    IF b = <<>> \/ st.bad THEN st
+    ELSE IF st.need > 0 THEN
+        LET k == Min2(st.need, Len(b))
+            room == 64 - Len(st.tagbuf)
+            st1 == [st EXCEPT !.need = @ - k, !.tagbuf = IF room <= 0 THEN @ ELSE @ \o Slice(b, 1, Min2(k, room))]
+        IN RxFeed(IF st1.need = 0 THEN RxFinish(st1) ELSE st1, Slice(b, k + 1, Len(b)))
+    ELSE
+        LET h == st.hdr \o b
+            p == EndOfHead(h)
+        IN IF p = 0 THEN (IF ~PrefixCompat(h) \/ Len(h) > 4096 THEN [st EXCEPT !.bad = TRUE] ELSE [st EXCEPT !.hdr = h])
+           ELSE LET r == ReadHead(Slice(h, 1, p + 3), 1) IN
+                IF ~r.ok THEN [st EXCEPT !.bad = TRUE]
+                ELSE LET st1 == [st EXCEPT !.hdr = <<>>, !.need = r.n, !.tagbuf = <<>>] IN
+                     RxFeed(IF r.n = 0 THEN RxFinish(st1) ELSE st1, Slice(h, p + 4, Len(h)))
 OwnerDigits(tag) == LET sl == {i \in 3..Len(tag) : tag[i] = 47} IN IF sl = {} THEN <<>> ELSE Slice(tag, 3, MinOf(sl) - 1)
 \* s is a subsequence of t without repetition (t has no repetition: tags are unique)
 RECURSIVE IsSubseq(_, _)
 IsSubseq(s, t) == IF s = <<>> THEN TRUE ELSE IF t = <<>> THEN FALSE
                   ELSE IF Head(s) = Head(t) THEN IsSubseq(Tail(s), Tail(t)) ELSE IsSubseq(s, Tail(t))
 OwnBad(c) ==
-    IF Len(rx[c]) >= RxCap THEN ""
-    ELSE LET ra == ReadAllFrom(rx[c], 1, <<>>)
-             app == SelectSeq(ra.rs, LAMBDA r : IsAppBody(r.body))
-             tags == [i \in 1..Len(app) |-> TagOf(app[i].body)]
-         IN IF \E i \in 1..Len(tags) : OwnerDigits(tags[i]) # DigitsAscii(NatDigits(c)) THEN "own:foreign-response"
-            ELSE IF ~IsSubseq(tags, supplied[c]) THEN "own:duplicated-or-reordered"
-            ELSE ""
+    LET tags == rx[c].tags IN
+    IF rx[c].bad THEN "own:not-a-response"
+    ELSE IF \E i \in 1..Len(tags) : OwnerDigits(tags[i]) # DigitsAscii(NatDigits(c)) THEN "own:foreign-response"
+    ELSE IF ~IsSubseq(tags, supplied[c]) THEN "own:duplicated-or-reordered"
+    ELSE ""
 TEndHist == /\ Ev("endhist") /\ UNCHANGED <<S, hist, lfd, kfd, nsteps, rx, supplied, dead>>
             /\ LET badc == {c \in Clients : OwnBad(c) # ""} IN
                IF badc = {} THEN UNCHANGED nbad
@@ -107,7 +126,7 @@ TSend == /\ Ev("send") /\ Common /\ RxSame
          /\ LET ev == Rec[l] IN Step(ev, "", CSendFds(S, ev.c, ev.bytes, ev.fds))
 
 TRecv == /\ Ev("recv") /\ Common
-         /\ rx' = [rx EXCEPT ![Rec[l].c] = IF Len(@) >= RxCap THEN @ ELSE @ \o Rec[l].bytes] /\ UNCHANGED supplied
+         /\ rx' = [rx EXCEPT ![Rec[l].c] = RxFeed(@, Rec[l].bytes)] /\ UNCHANGED supplied
          /\ LET ev == Rec[l]
                 c == ev.c
                 have == S.s2c[c]
